@@ -68,13 +68,14 @@ type Chaos struct {
 	Nodes []*chaosNode
 	key   []byte
 
-	mu     sync.Mutex
-	loss   float64
-	dup    float64
-	delay  time.Duration
-	OnPoll func(ch *Chaos)
-	Polls  int
-	wg     sync.WaitGroup
+	mu      sync.Mutex
+	loss    float64
+	dup     float64
+	lateDup float64
+	delay   time.Duration
+	OnPoll  func(ch *Chaos)
+	Polls   int
+	wg      sync.WaitGroup
 }
 
 func (ch *Chaos) meta(cn *chaosNode) []byte {
@@ -107,7 +108,7 @@ func NewChaos(seed int64, sc faultScn, rng *rand.Rand) (*Chaos, error) {
 	ch.C.Net.KeepTrace = false
 	ch.C.Net.Policy = func(n *Net, from, to string, buf []byte) Fate {
 		ch.mu.Lock()
-		loss, dup, delay := ch.loss, ch.dup, ch.delay
+		loss, dup, delay, late := ch.loss, ch.dup, ch.delay, ch.lateDup
 		ch.mu.Unlock()
 		f := Fate{Delay: n.DefaultDelay}
 		if loss > 0 && n.Float() < loss {
@@ -120,6 +121,19 @@ func NewChaos(seed int64, sc faultScn, rng *rand.Rand) (*Chaos, error) {
 		if delay > 0 {
 			f.Delay += time.Duration(n.Intn(int(delay)))
 			f.Jitter = delay / 2
+		}
+		if late > 0 && n.Float() < late {
+			// a stale duplicate, seconds to half a minute behind the original, but never so late that it
+			// would arrive after the faults are said to have ceased
+			room := 40 * time.Second
+			if sc.TStop > 0 {
+				if left := sc.TStop - time.Since(ch.Start) - 2*time.Second; left < room {
+					room = left
+				}
+			}
+			if room > time.Second {
+				f.Late = time.Second + time.Duration(n.Intn(int(room-time.Second)))
+			}
 		}
 		return f
 	}
@@ -155,6 +169,10 @@ func (ch *Chaos) apply(a faultAction) {
 	case "delay":
 		ch.mu.Lock()
 		ch.delay = a.Dur
+		ch.mu.Unlock()
+	case "latedup":
+		ch.mu.Lock()
+		ch.lateDup = a.P
 		ch.mu.Unlock()
 	case "partition":
 		in := map[int]bool{}
@@ -330,7 +348,7 @@ func (ch *Chaos) apply(a faultAction) {
 // stopFaults restores a loss-free, undelayed, unpartitioned network.
 func (ch *Chaos) stopFaults() {
 	ch.mu.Lock()
-	ch.loss, ch.dup, ch.delay = 0, 0, 0
+	ch.loss, ch.dup, ch.delay, ch.lateDup = 0, 0, 0, 0
 	ch.mu.Unlock()
 	ch.C.Net.ClearBlocks()
 }
